@@ -235,6 +235,30 @@ def _make_clf(name):
     return DecisionTreeClassifier(max_depth=3, random_state=0), 1e-9
 
 
+def _learner_is_the_one_that_differs(c, tt, learner_name, X, y, w, Xq, pp):
+    """The equivariance clause is stated for label-permutation-equivariant
+    learners.  A learner whose split selection or argmax meets a floating-point
+    tie is not equivariant on that data (summing over classes in another order
+    moves an impurity by one ulp).  Decided exactly: a plain classifier trained
+    on the *permuted* codes must be what the wrapper holds, and the wrapper's
+    columns must be that classifier's columns mapped back."""
+    try:
+        codes = numpy.asarray(tt.transformer_.transform(X, y)[1])
+        ref, _ = _make_clf(learner_name)
+        ref.fit(X, codes, **({} if w is None else {"sample_weight": w}))
+        pr = ref.predict_proba(Xq)
+        rcls = [int(v) for v in ref.classes_.tolist()]
+        mapping = {str(k): int(v) for k, v in tt.transformer_.permutation_.items()}
+        cls = numpy.asarray(tt.classes_)
+        for j in range(pp.shape[1]):
+            if not numpy.allclose(pp[:, j], pr[:, rcls.index(mapping[str(cls[j])])], rtol=0, atol=1e-12):
+                return False
+        c.probe("learner_not_equivariant_on_this_data")
+        return True
+    except Exception:  # noqa: BLE001
+        return False
+
+
 def _check_permutation(c, seen, X, y, labels, perm, learner_name, Xq, how, w=None):
     """One forced permutation: transformer round trip + classifier wrapper."""
     k = len(labels)
@@ -364,7 +388,11 @@ def _check_permutation(c, seen, X, y, labels, perm, learner_name, Xq, how, w=Non
     # a learner is only equivariant where its decision is not a tie
     pw0 = numpy.sort(plain.predict_proba(Xq), axis=1)
     decided = (pw0[:, -1] - pw0[:, -2] > 1e-9) if pw0.shape[1] > 1 else numpy.ones(len(Xq), dtype=bool)
+    not_equivariant_here = False
     if [str(a) for a in p[decided].tolist()] != [str(a) for a in want[decided].tolist()]:
+        okp, pp_try = U.sut(c, "ttc.predict_proba", tt.predict_proba, Xq)
+        not_equivariant_here = okp and learner_name in ("tree", "vote") and _learner_is_the_one_that_differs(c, tt, learner_name, X, y, w, Xq, numpy.asarray(pp_try))
+    if not not_equivariant_here and [str(a) for a in p[decided].tolist()] != [str(a) for a in want[decided].tolist()]:
         _viol(
             c,
             seen,
@@ -391,6 +419,8 @@ def _check_permutation(c, seen, X, y, labels, perm, learner_name, Xq, how, w=Non
     for j in range(pp.shape[1]):
         jj = pcls.index(str(cls[j]))
         if not numpy.allclose(pp[:, j], pw[:, jj], rtol=0, atol=max(tol, 1e-12)):
+            if not_equivariant_here or (learner_name in ("tree", "vote") and _learner_is_the_one_that_differs(c, tt, learner_name, X, y, w, Xq, pp)):
+                break  # the wrapper is exactly its learner trained on the permuted codes
             _viol(
                 c,
                 seen,
